@@ -34,7 +34,7 @@ Section Other.
     RegW w i nd st' k -> j <> i -> nth_error (w_nodes w) j = Some X -> n_crashed X = false ->
     Claims w j X -> Claims w' j X.
   Proof.
-    intros (Hcur & Est & Hmod & Hq & HpreA & HpreC & Hkey) Hji Hj HalX HC.
+    intros (Hcur & Est & Hmod & Hq & HpreA & HpreC & HpreD & Hkey) Hji Hj HalX HC.
     destruct HW as (HS & (HB1 & HB2) & _ & Hone & HN).
     destruct (HN _ _ Hj) as (HcasX & HwfX & _ & _).
     set (st := w_st w) in *.
@@ -102,7 +102,11 @@ Section Other.
           - apply Hns. now apply acked_update_steady in HC.
           - specialize (Hnf j X Hji Hj). unfold busy in Hnf. rewrite HalX, Eo, Hpc in Hnf. cbn in Hnf. rewrite N.eqb_refl in Hnf. discriminate. }
         destruct HC as (e & c & g & He & Hcu & Hc). exists e, c, g. rewrite Hsame by congruence. rewrite Ecfg. auto.
-      + cbn. rewrite Ecfg. exact HC.
+      + cbn. rewrite Ecfg. intros e0 He0 Hd0. destruct (N.eq_dec k d) as [->|Hkd].
+        * exfalso. destruct HpreD as [Hnd|Hnf].
+          -- rewrite Ereg in He0. rewrite (Hnd _ He0) in Hd0. discriminate.
+          -- specialize (Hnf j X Hji Hj). unfold busy in Hnf. rewrite HalX, Eo, Hpc in Hnf. cbn in Hnf. rewrite N.eqb_refl in Hnf. discriminate.
+        * rewrite Hsame in He0 by congruence. exact (HC e0 He0 Hd0).
     - (* PFinWrite *)
       destruct HC as (HF & _). split; [|intros Hc; exfalso; exact (Hnc Hc)].
       unfold FinClaim in *. destruct (n_op X) as [d dig cols|d dig cols|d|] eqn:Eo; try exact HF.
@@ -111,7 +115,11 @@ Section Other.
           - apply Hns. now apply acked_update_steady in HF.
           - specialize (Hnf j X Hji Hj). unfold busy in Hnf. rewrite HalX, Eo, Hpc in Hnf. cbn in Hnf. rewrite N.eqb_refl in Hnf. discriminate. }
         destruct HF as (e & c & g & He & Hcu & Hc). exists e, c, g. rewrite Hsame by congruence. rewrite Ecfg. auto.
-      + cbn. rewrite Ecfg. exact HF.
+      + cbn. rewrite Ecfg. intros e0 He0 Hd0. destruct (N.eq_dec k d) as [->|Hkd].
+        * exfalso. destruct HpreD as [Hnd|Hnf].
+          -- rewrite Ereg in He0. rewrite (Hnd _ He0) in Hd0. discriminate.
+          -- specialize (Hnf j X Hji Hj). unfold busy in Hnf. rewrite HalX, Eo, Hpc in Hnf. cbn in Hnf. rewrite N.eqb_refl in Hnf. discriminate.
+        * rewrite Hsame in He0 by congruence. exact (HF e0 He0 Hd0).
     - (* PLoadLegacy *) intros Hc. exfalso. exact (Hnc Hc).
   Qed.
 
@@ -150,6 +158,25 @@ Section Other.
     - right. right. auto.
   Qed.
 
+  (* the claim of a finalizing deleter: while the entry is still the one marked deleted, the config document is gone *)
+  Lemma fin_delete_cfg d0 d :
+    CfgW w i nd st' d0 ->
+    (forall e, aget (regc (w_st w)) d = Some e -> is_deleted (rv_ver (e_cur e)) = true -> aget (s_cfg (w_st w)) d = None) ->
+    forall e, aget (regc (w_st w)) d = Some e -> is_deleted (rv_ver (e_cur e)) = true -> aget (s_cfg st') d = None.
+  Proof.
+    intros (_ & _ & Hsame & _ & Hkind) HC e He Hd.
+    destruct (N.eq_dec d d0) as [->|Hne]; [|rewrite Hsame by exact Hne; eauto].
+    destruct Hkind as [(cas & cf & e1 & _ & _ & E3 & E4)|[(Hp & Hd0)|(_ & _ & E & _)]]; [| |exact E].
+    - rewrite E3 in He. injection He as <-. congruence.
+    - exfalso. subst d0. destruct HW as (HS & _ & _ & _ & HN). destruct (HN _ _ Hi) as (_ & _ & _ & HCl).
+      specialize (HCl Hal). unfold Claims, ClaimsQ in HCl. destruct (n_pc nd); try discriminate.
+      + destruct HCl as (_ & H). destruct (n_op nd); try (exact H). destruct H as (e1 & He1 & Hcur).
+        cbn in He, He1. rewrite He1 in He. injection He as <-. rewrite Hcur in Hd. cbn in Hd. discriminate.
+      + destruct HCl as (_ & _ & Hlive & (e1 & He1 & Hcur) & _). rewrite He1 in He. injection He as <-.
+        rewrite Hcur in Hd. cbn in Hd. rewrite (live_not_deleted _ Hlive) in Hd. discriminate.
+      + destruct HCl as (_ & (x & Hx) & _). rewrite (HC e He Hd) in Hx. discriminate.
+  Qed.
+
   Lemma claims_other_cfg d0 j X :
     CfgW w i nd st' d0 -> j <> i -> nth_error (w_nodes w) j = Some X -> n_crashed X = false ->
     Claims w j X -> Claims w' j X.
@@ -161,9 +188,11 @@ Section Other.
     assert (forall d, quiet w d j -> busy inflight_pc d nd = false) as Hqi.
     { intros d Hq. exact (Hq i nd (fun E0 => Hji (eq_sym E0)) Hi). }
     (* an alive active node on d excludes node i being in flight on d *)
-    assert (forall d, busy active_pc d X = true -> busy inflight_pc d nd = false) as Hact.
-    { intros d Hb. destruct (busy inflight_pc d nd) eqn:E; [|reflexivity]. exfalso.
-      eapply (Hone i j nd X d); eauto. now apply busy_active_of_inflight. }
+    assert (forall d, busy active_pc d X = true -> weakfin X = false -> busy inflight_pc d nd = false) as Hact.
+    { intros d Hb Hwk. destruct (busy inflight_pc d nd) eqn:E; [|reflexivity]. exfalso.
+      pose proof (busy_true _ _ _ E) as (_ & _ & Hp).
+      destruct (Hone i j nd X d (fun E0 => Hji (eq_sym E0)) Hi Hj (busy_active_of_inflight _ _ E) Hb) as [[Hw _]|[Hw _]]; [|congruence].
+      unfold weakfin in Hw. destruct (n_pc nd); discriminate. }
     assert (forall d cas, cas < s_clock (w_st w) -> forall cf, aget (s_cfg st') d = Some (cas, cf) -> d <> d0) as Hold.
     { intros d cas Hlt cf Hcf ->. specialize (Hfresh _ _ Hcf). lia. }
     unfold Claims, ClaimsQ in *. cbn [w_st w']. unfold View, cur, Mod in *. rewrite ?Ereg, ?Ecas, ?Eclk.
@@ -218,7 +247,7 @@ Section Other.
       destruct HC as (Hns & H). split; [|exact H]. intros Hst. apply Hns.
       assert (busy active_pc (op_db (n_op X)) X = true) as Hb by (apply busy_intro; auto; now rewrite Hpc).
       destruct Hst as (e & c & cf & He & Hc & Hcu). rewrite Ereg in He.
-      destruct (cfgw_cases d0 (op_db (n_op X)) HCW (Hact _ Hb)) as [E|[(cas0 & cf0 & e0 & E1 & E2 & E3 & E4)|(E1 & _)]].
+      destruct (cfgw_cases d0 (op_db (n_op X)) HCW (Hact _ Hb ltac:(unfold weakfin; rewrite Hpc; reflexivity))) as [E|[(cas0 & cf0 & e0 & E1 & E2 & E3 & E4)|(E1 & _)]].
       * exists e, c, cf. rewrite <- E. auto.
       * rewrite E2 in Hc. injection Hc as <- <-. exists e, cas0, cf0. auto.
       * congruence.
@@ -226,7 +255,7 @@ Section Other.
       destruct HC as (Hns & Hb0 & H). split; [|split; [lia | exact H]]. intros Hst. apply Hns.
       assert (busy active_pc (op_db (n_op X)) X = true) as Hb by (apply busy_intro; auto; now rewrite Hpc).
       destruct Hst as (e & c & cf0 & He & Hc & Hcu). rewrite Ereg in He.
-      destruct (cfgw_cases d0 (op_db (n_op X)) HCW (Hact _ Hb)) as [E|[(cas0 & cf1 & e0 & E1 & E2 & E3 & E4)|(E1 & _)]].
+      destruct (cfgw_cases d0 (op_db (n_op X)) HCW (Hact _ Hb ltac:(unfold weakfin; rewrite Hpc; reflexivity))) as [E|[(cas0 & cf1 & e0 & E1 & E2 & E3 & E4)|(E1 & _)]].
       * exists e, c, cf0. rewrite <- E. auto.
       * rewrite E2 in Hc. injection Hc as <- <-. exists e, cas0, cf1. auto.
       * congruence.
@@ -234,32 +263,34 @@ Section Other.
       destruct HC as (Hb0 & (x & Hx) & H). split; [lia|]. split; [|exact H].
       assert (busy inflight_pc (op_db (n_op X)) X = true) as Hbi by (apply busy_intro; auto; now rewrite Hpc).
       pose proof (busy_active_of_inflight _ _ Hbi) as Hb.
-      destruct (cfgw_cases d0 (op_db (n_op X)) HCW (Hact _ Hb)) as [E|[(cas0 & cf1 & e0 & E1 & E2 & E3 & E4)|(E1 & _ & Hq & _)]].
+      destruct (cfgw_cases d0 (op_db (n_op X)) HCW (Hact _ Hb ltac:(unfold weakfin; rewrite Hpc; reflexivity))) as [E|[(cas0 & cf1 & e0 & E1 & E2 & E3 & E4)|(E1 & _ & Hq & _)]].
       * rewrite E. eauto.
       * rewrite E2. eauto.
       * exfalso. rewrite (Hq j X Hji Hj) in Hbi. discriminate.
     - (* PFinGet *)
       assert (busy active_pc (op_db (n_op X)) X = true) as Hb by (apply busy_intro; auto; now rewrite Hpc).
-      pose proof (cfgw_cases d0 (op_db (n_op X)) HCW (Hact _ Hb)) as Hcase.
-      unfold FinClaim in *. destruct (n_op X) as [d dig cols|d dig cols|d|] eqn:Eo; try exact HC; cbn in Hcase.
-      + pose proof (steady_live _ _ HS (acked_update_steady _ _ _ _ HC)) as (e1 & c1 & cf1 & S1 & S2 & S3 & S4 & S5).
+      unfold FinClaim in *. destruct (n_op X) as [d dig cols|d dig cols|d|] eqn:Eo; try exact HC.
+      + assert (weakfin X = false) as Hwk by (unfold weakfin; rewrite Eo; apply andb_false_r).
+        pose proof (cfgw_cases d0 d HCW (Hact _ Hb Hwk)) as Hcase.
+        pose proof (steady_live _ _ HS (acked_update_steady _ _ _ _ HC)) as (e1 & c1 & cf1 & S1 & S2 & S3 & S4 & S5).
         destruct HC as (e & c & g & He & Hcu & Hc). cbn. rewrite Ereg.
         destruct Hcase as [E|[(cas0 & cf0 & e0 & E1 & E2 & E3 & E4)|(E1 & _ & _ & e0 & E3 & E4)]].
         * exists e, c, g. rewrite E. auto.
         * rewrite E1 in Hc. injection Hc as -> ->. exists e, (s_clock (w_st w)), g. auto.
         * exfalso. rewrite E3 in S1. injection S1 as <-. rewrite E4 in S5. discriminate.
-      + cbn. destruct Hcase as [E|[(cas0 & cf0 & e0 & E1 & _)|(_ & (x & E2) & _)]]; congruence.
+      + cbn. rewrite Ereg. exact (fin_delete_cfg d0 d HCW HC).
     - (* PFinWrite *)
       destruct HC as (HF & Hrest). split; [|exact Hrest].
       assert (busy active_pc (op_db (n_op X)) X = true) as Hb by (apply busy_intro; auto; rewrite Hpc; apply orb_true_r).
-      pose proof (cfgw_cases d0 (op_db (n_op X)) HCW (Hact _ Hb)) as Hcase.
-      unfold FinClaim in *. destruct (n_op X) as [d dig cols|d dig cols|d|] eqn:Eo; try exact HF; cbn in Hcase.
-      + pose proof (steady_live _ _ HS (acked_update_steady _ _ _ _ HF)) as (e1 & c1 & cf1 & S1 & S2 & S3 & S4 & S5).
+      unfold FinClaim in *. destruct (n_op X) as [d dig cols|d dig cols|d|] eqn:Eo; try exact HF.
+      + assert (weakfin X = false) as Hwk by (unfold weakfin; rewrite Eo; apply andb_false_r).
+        pose proof (cfgw_cases d0 d HCW (Hact _ Hb Hwk)) as Hcase.
+        pose proof (steady_live _ _ HS (acked_update_steady _ _ _ _ HF)) as (e1 & c1 & cf1 & S1 & S2 & S3 & S4 & S5).
         destruct HF as (e & c & g & He & Hcu & Hc). cbn. rewrite Ereg.
         destruct Hcase as [E|[(cas0 & cf0 & e0 & E1 & E2 & E3 & E4)|(E1 & _ & _ & e0 & E3 & E4)]].
         * exists e, c, g. rewrite E. auto.
         * rewrite E1 in Hc. injection Hc as -> ->. exists e, (s_clock (w_st w)), g. auto.
         * exfalso. rewrite E3 in S1. injection S1 as <-. rewrite E4 in S5. discriminate.
-      + cbn. destruct Hcase as [E|[(cas0 & cf0 & e0 & E1 & _)|(_ & (x & E2) & _)]]; congruence.
+      + cbn. rewrite Ereg. exact (fin_delete_cfg d0 d HCW HF).
   Qed.
 End Other.
